@@ -86,6 +86,10 @@ def install(eng):
         M(r'^<&?f64 as std::ops::%s(<&?f64>)?>::%s$' % (tr, tr.lower()), fbin(op))
     M(r'^<f64 as std::ops::Neg>::neg$', lambda e, st, fr, f, a, m: one(st, F(-a[0].v, a[0].nan, -a[0].inf)))
 
+    def fn_call(e, st, fr, f, a, m):
+        clo = a[0]; tup = a[1]
+        return eng.call_closure(st, fr, clo, list(tup.items) if isinstance(tup, Agg) else [tup])
+    M(r'^<.* as std::ops::(Fn|FnMut|FnOnce)<.*>>::call(_mut|_once)?$', fn_call)
     # ---------------- misc ----------------
     M(r'^std::hint::must_use$', lambda e, st, fr, f, a, m: one(st, a[0]))
     M(r'^<.* as std::clone::Clone>::clone$', lambda e, st, fr, f, a, m: one(st, D(st, a[0])) if not isinstance(D(st, a[0]), Opaque) or True else NotImplemented)
@@ -154,6 +158,9 @@ def install(eng):
     M(r'^<std::(option::Option|result::Result)<.*> as std::ops::Try>::branch$', try_branch)
     M(r'^<std::(option::Option|result::Result)<.*> as std::ops::FromResidual<.*>>::from_residual$', lambda e, st, fr, f, a, m: one(st, a[0]))
 
+    M(r'^std::result::Result::<.*>::Ok$', lambda e, st, fr, f, a, m: one(st, Ok(a[0])))
+    M(r'^std::result::Result::<.*>::Err$', lambda e, st, fr, f, a, m: one(st, Err(a[0])))
+    M(r'^std::option::Option::<.*>::Some$', lambda e, st, fr, f, a, m: one(st, Some(a[0])))
     # ---------------- Range ----------------
     M(r'^<std::ops::Range<\w+> as std::iter::IntoIterator>::into_iter$', lambda e, st, fr, f, a, m: one(st, a[0]))
     def range_next(e, st, fr, f, a, m):
